@@ -85,6 +85,8 @@ class RecordingFile(object):
         else:
             if not isinstance(data, str):
                 raise TypeError("write() argument must be str, not %s" % type(data).__name__)
+        if isinstance(data, (bytearray, memoryview)):
+            data = bytes(data)  # what the file holds is the content at the time of the call
         self.ops.append(("write", data))
         return len(data)
 
